@@ -71,6 +71,10 @@ def step : List String → String
     | none => "bad-op"
   | ["gate", opts, ms] =>
     match parseExts opts, parseMsgs ms with
+    | some opts, some ms => showVerdict opts (deliver maxN opts ms)
+    | _, _ => "bad-op"
+  | ["ante", opts, ms] =>
+    match parseExts opts, parseMsgs ms with
     | some opts, some ms => showVerdict opts (gate maxN opts ms)
     | _, _ => "bad-op"
   | _ => "bad-op"
